@@ -51,7 +51,7 @@ ASSUMPTIONS = [
   'branch) or a shape outside the proof only (slices whose bounds are not plain integer expressions, widths >= 1024); '
   'F4, N2, N3, N5 were repaired in /repo and the model follows the repaired rules',
 ]
-RULE = ('streams: typed (type-directed terms, no injected defects), mixite (if-expressions with one implicit and one explicitly sized branch, both orders, in wider/equal/narrower explicit contexts, directly / through a temporary / nested), tmpseq (straight-line re-assignments of a temporary: literal/explicit/other width, then a narrower/equal/wider use), boolop (comparison results / Bool-typed terms as left and right operands against explicitly sized w-bit operands), desc (descending constant ranges whose loop variable meets a w-bit operand: first value fits / only the last fits), noisy (same with width/literal defects injected at each choice point), '
+RULE = ('streams: typed (type-directed terms, no injected defects), multi (2-3 instances of one class with different per-instance constants read through s.P / s.cfg.n / s.T[1], checked forwards, backwards and inside one design), mixite (if-expressions with one implicit and one explicitly sized branch, both orders, in wider/equal/narrower explicit contexts, directly / through a temporary / nested), tmpseq (straight-line re-assignments of a temporary: literal/explicit/other width, then a narrower/equal/wider use), boolop (comparison results / Bool-typed terms as left and right operands against explicitly sized w-bit operands), desc (descending constant ranges whose loop variable meets a w-bit operand: first value fits / only the last fits), noisy (same with width/literal defects injected at each choice point), '
         'wild (unconstrained small terms, mostly rejected), one labelled stream per known hole (F12, N1, N4) and per repaired one (F4, N2, N3, N5: must now be rejected / clean), directed corpus; '
         'signal values boundary-biased; non-trivial = elaborated and checked by the real passes; distinct = distinct case tuple')
 
@@ -143,6 +143,7 @@ class Walk:
     cls = type(r).__name__
     k = g[0]
     if k == 'num': want = ('Number', 'FreeVar')
+    elif k == 'cast' and ':' in g[3]: want = ('SizeCast',)
     elif k == 'cast' and g[3] in ('globfv', 'locfv'): want = ('FreeVar',)
     elif k == 'ext': want = (EXT_CLASS[g[1]],)
     else: want = (KIND_CLASS[k],)
@@ -285,6 +286,9 @@ def make_env(rng, case, mod):
   for n, v in G.class_source(case)[3]: setattr(s, f'KB{n}_{v}', R.mk_bits(n)(v))
   loc = {'s': s}
   for nm, src in G.free_vars(case)[1]: loc[nm] = eval(src, mod.__dict__)
+  pa = G.param_attrs(case)
+  if pa:
+    for l in G.param_lines(pa, lambda j, src: src): exec(l, mod.__dict__, {'s': s})
   lvs = []
   for i, a, b, c in loops_of(case['block']):
     try: rg = list(range(a, b, c))
@@ -384,6 +388,14 @@ def finding_sig(case, issues):
     if iss in issues: return f
   return 'unexplained'
 
+_ncollect = [0]
+def _collect():
+  """young generations after every batch, a full collection now and then (a full collection after every batch is
+  quadratic when the code under test keeps every AST alive)"""
+  import gc
+  _ncollect[0] += 1
+  gc.collect() if _ncollect[0] % 40 == 0 else gc.collect(1)
+
 def _watchdog(signum, frame):
   raise leanio.MachineryError('C10: evaluation of a generated block on the real code did not finish within 60 s')
 
@@ -398,7 +410,7 @@ def process(ck, cases, nvec):
   finally:
     signal.alarm(0)
     G.drop_modules()
-    gc.enable(); gc.collect()
+    gc.enable(); _collect()
 
 def _process(ck, cases, nvec):
   rng = ck.rng
@@ -527,6 +539,108 @@ def _process(ck, cases, nvec):
       ck.disagreement('block execution: execS≈DefaultPassGroup simulation', {'case': res['case'], 'inputs': {str(k): v for k, v in init.items()}},
                       model[:300], impl[:300])
 
+# ------------------------------------------------------------------ several instances of one class
+
+def flat_ann(R, rtlir):
+  out, seen = [], set()
+  def go(n):
+    if id(n) in seen: return
+    seen.add(id(n))
+    t = getattr(n, 'Type', None)
+    if isinstance(t, R.rt.Signal): out.append((type(n).__name__, int(t.get_dtype().get_length()), bool(n._is_explicit), getattr(n, '_value', None)))
+    for f, v in vars(n).items():
+      if f in ('ast', 'component', 'base', 'size'): continue
+      if isinstance(v, R.bir.BaseBehavioralRTLIR): go(v)
+      elif isinstance(v, list):
+        for x in v:
+          if isinstance(x, R.bir.BaseBehavioralRTLIR): go(x)
+  go(rtlir)
+  return out
+
+def check_instance(R, m, top):
+  try:
+    m.apply(R.BehavioralRTLIRGenPass(top)); m.apply(R.BehavioralRTLIRTypeCheckPass(top))
+  except R.PyMTLSyntaxError: return ('reject syntax', None)
+  except R.PyMTLTypeError: return ('reject type', None)
+  except Exception as e: return ('reject crash', type(e).__name__)
+  ups = m.get_metadata(R.BehavioralRTLIRGenPass.rtlir_upblks)
+  return ('ok', flat_ann(R, list(ups.values())[0]))
+
+def process_multi(ck, cases, nvec):
+  """2-3 instances of ONE class with different per-instance constants (attributes set from constructor
+  parameters), type-checked forwards, backwards and as children of one design; direct oracle on the real code:
+  verdict and node annotations of an instance equal those of the same instance checked FIRST in a fresh copy of the
+  class; accepted in any order => its simulation (own constants) raises no width error.  The model comparison of every
+  instance goes through `process` on the instantiated blocks."""
+  import signal, gc
+  R = real()
+  signal.signal(signal.SIGALRM, _watchdog); signal.alarm(120); gc.disable()
+  try:
+    for c in cases:
+      src, name, topname, args = G.multi_source(c)
+      K = len(args)
+      def fresh(): return G.load_source(ck.workdir, src)
+      def inst(mod, k):
+        m = eval(f'{name}( ' + ', '.join(args[k]) + ' )', mod.__dict__); m.elaborate(); return m
+      try:
+        ref = []
+        for k in range(K):
+          mod = fresh(); m = inst(mod, k); ref.append(check_instance(R, m, m))
+        runs = {}
+        mod = fresh(); runs['forward'] = [(k, check_instance(R, *(lambda m: (m, m))(inst(mod, k)))) for k in range(K)]
+        mod = fresh(); runs['backward'] = [(k, check_instance(R, *(lambda m: (m, m))(inst(mod, k)))) for k in reversed(range(K))]
+        mod = fresh(); top = getattr(mod, topname)(); top.elaborate()
+        runs['one design'] = [(k, check_instance(R, getattr(top, f'c{k}'), top)) for k in range(K)]
+      except Exception as e:
+        ck.hist('outcome_multi', 'elaboration-failed:' + type(e).__name__); ck.count(c, False); continue
+      ck.count(c, True); ck.hist('stream', 'multi')
+      accepted_somewhere = set()
+      viol = None
+      for order, rs in runs.items():
+        for k, res in rs:
+          if res[0] == 'ok': accepted_somewhere.add(k)
+          if res != ref[k] and viol is None:
+            viol = (order, k, ref[k], res)
+      for k in range(K):
+        ck.hist('outcome_multi', ref[k][0])
+        if ref[k][0] == 'ok': accepted_somewhere.add(k)
+      srclines = src.split('\n')
+      if viol is not None:
+        order, k, a, b = viol
+        ck.hist('violations', 'instance-order @multi')
+        ck.violation('typing-depends-on-instance-order', {'finding': 'unexplained'}, {'multi_case': c, 'instance': k, 'order': order},
+                     {'oracle': 'verdict and (node class, width, _is_explicit, _value) of every RTLIR node of an instance must equal those of '
+                                'the same instance checked first in a fresh copy of the class',
+                      'instance_args': args[k], 'checked_first': str(a)[:400], 'checked_in_order': str(b)[:400], 'source': srclines})
+      # accepted => no width error with the instance's own constants
+      for k in sorted(accepted_somewhere):
+        mod = fresh(); m = inst(mod, k); m.apply(R.DefaultPassGroup())
+        bad = None
+        for j in range(nvec + 2):
+          ins = {}
+          for x, w, d in c['sigs']:
+            if d == 'in':
+              v = 0 if j == 0 else ((1 << w) - 1 if j == 1 else rand_value(ck.rng, w))
+              sig = getattr(m, f'i{x}'); sig @= v; ins[x] = v
+          try: m.sim_eval_combinational()
+          except Exception as e:
+            ce = canon_exc(e)
+            if is_width_err(ce): bad = (ins, ce, str(e).split('\n')[0][:140]); break
+        if bad is not None and ref[k][0] != 'ok':
+          # only accepted because another instance was checked before it
+          ck.hist('violations', 'instance-order-accepts @multi')
+          ck.violation('accepted-block-raises-width-error', {'finding': 'unexplained'},
+                       {'multi_case': c, 'instance': k, 'inputs': {str(a): b for a, b in bad[0].items()}},
+                       {'oracle': 'an instance accepted by the real type checker (after another instance of its class) raises in simulation',
+                        'instance_args': args[k], 'exception': bad[1], 'message': bad[2], 'source': srclines})
+    # model vs implementation (and the usual oracle) for every instance as a class of its own
+    insts = []
+    for c in cases:
+      for k in range(len(c['insts'])): insts.append(G.instantiate(c, k))
+  finally:
+    signal.alarm(0); G.drop_modules(); gc.enable(); gc.collect(1)
+  process(ck, insts, nvec)
+
 # ------------------------------------------------------------------ oracle-only streams (bitstructs, constant lists)
 
 def canon_exc_struct(e):
@@ -595,7 +709,7 @@ def process_src(ck, cases, nvec):
                       'nodes(src, static, runtime)': wviol[:3], 'source': ST.source(c)[1]})
       elif c['stream'] in FINDING_OF_STREAM: ck.hist('labelled_without_failure', c['stream'])
   finally:
-    signal.alarm(0); ST.drop(); gc.enable(); gc.collect()
+    signal.alarm(0); ST.drop(); gc.enable(); _collect()
 
 def _unparse(x):
   if isinstance(x, list): return '(' + ' '.join(_unparse(y) for y in x) + ')'
@@ -773,6 +887,10 @@ def run(ck):
     batch(14 if quick else 36, lambda u: G.gen_tmpseq(rng, u))
     batch(14 if quick else 36, lambda u: G.gen_mixite(rng, u))
     batch(14 if quick else 36, lambda u: G.gen_fvar(rng, u))
+    mc = []
+    for _ in range(5 if quick else 14):
+      uid[0] += 1; mc.append(G.gen_multi(rng, uid[0]))
+    process_multi(ck, mc, nvec)
     nsrc = (10, 3, 2, 8) if quick else (30, 8, 6, 24)
     src_cases = []
     for n, f in zip(nsrc, (lambda u: ST.gen_struct(rng, u), lambda u: ST.gen_lut(rng, u, 'N6'), lambda u: ST.gen_lut(rng, u, 'lutctl'),
@@ -792,6 +910,12 @@ def replay(ck, data):
     print(f'_get_nbits_from_value({v}) = {a}; least width = {least_width(v)}; model: ' + ck.drv('tc').batch([leanio.line('tc', 'nbits', v)])[0])
     return 0 if v < 0 or a == least_width(v) else 1
   if isinstance(case, dict) and 'case' in case: case = case['case']
+  if isinstance(case, dict) and 'multi_case' in case:
+    n0 = len(ck.violations)
+    print(G.multi_source(case['multi_case'])[0])
+    process_multi(ck, [case['multi_case']], 4)
+    for v in ck.violations[n0:][:2]: print('VIOLATION', v.kind, v.signature, v.detail.get('instance_args'), v.detail.get('checked_first'), v.detail.get('checked_in_order'))
+    return 1 if len(ck.violations) > n0 else 0
   if isinstance(case, dict) and 'src_case' in case:
     n0 = len(ck.violations)
     sc = case['src_case']
